@@ -420,3 +420,16 @@ Fixpoint blocks_of_columns {A} (nrows : nat) (layout : list (nat * bool)) (cols 
        else B1 (match mine with c :: _ => c | [] => [] end))
       :: blocks_of_columns nrows rest (skipn w cols)
   end.
+
+(* ------------------------------------------------------------------ guards used by the refinement theorems *)
+(* a row's view of a block is consistent: 2-D blocks have width >= 1, and "no row of the block has a missing cell"
+   implies this row has none *)
+Definition rb_ok {A} (b : rblock A) : bool :=
+  match b with
+  | RB1 anyna c => anyna || negb (is_missing c)
+  | RB2 anyna cs => negb (Nat.eqb (length cs) 0) && (anyna || negb (existsb is_missing cs))
+  end.
+Definition row_ok {A} (bs : list (rblock A)) : bool := forallb rb_ok bs.
+Definition row_cells {A} (bs : list (rblock A)) : list (option A) := concat (map rb_cells bs).
+Definition frame_bwd_dom {A} (limit : Z) (nrows : nat) (blocks : list (block A)) : bool :=
+  forallb (fun i => bwd_dom limit (map (rblock_at i) blocks)) (seq 0 nrows).
